@@ -421,7 +421,11 @@ def normalize_url(
 
     # TODO: check if works with `unsplit=False`
     if strip_protocol or not has_protocol:
-        result = urlunsplit(result)[2:]
+        result = urlunsplit(result)
+
+        # NOTE: there is no leading '//' to drop when the netloc is empty
+        if result.startswith("//"):
+            result = result[2:]
     else:
         result = urlunsplit(result)
 
